@@ -828,3 +828,8 @@ benign('B-rename-RN2-field', ALLP, [], patch='sa/benign/RN2.diff')
 mutant_on('sa/benign/RN2.diff', 'RN2+rewind-uses-second-tick', ['C15'], [
     (CX, "self.validated_floor_ts[index].fetch_max(timestamp, Ordering::AcqRel);", "let _ = timestamp;\n        self.validated_floor_ts[index].fetch_max(self.logical_clock.load(Ordering::Acquire), Ordering::AcqRel);"),
 ], ['|U2|'])
+# renamed private types (HistoryScan -> ScanOutcome, TransactionStatus -> TxPhase)
+benign('B-rename-RN3-types', ALLP, [], patch='sa/benign/RN3.diff')
+mutant_on('sa/benign/RN3.diff', 'RN3+next-accepts-finality', ['C02'], [
+    (S, "                    TxPhase::Executed | TxPhase::Unconfirmed => {", "                    TxPhase::Executed | TxPhase::Unconfirmed | TxPhase::Finality => {"),
+], ['|N8|'])
